@@ -41,7 +41,7 @@ hashset = st.lists(st.sampled_from(HASHSETS), min_size=1, max_size=3,
 def layout(draw, spec, sub_manifests=True, duplicates=True, ignores=True,
            dist=True, timestamp=True, lies=False, second_manifest=True,
            compressed=True, hashsets=None, conflicts=True,
-           sub_prob=(1, 3), second_prob=(1, 5)):
+           sub_prob=(1, 3), second_prob=(1, 5), under_ignore=True):
     """Returns a symbolic layout:
     {'manifests': [{'p','fmt','dir','parent','entries','mpos','mhash'}],
      'tags': [...]}   manifests[0] is the top-level one."""
@@ -132,7 +132,10 @@ def layout(draw, spec, sub_manifests=True, duplicates=True, ignores=True,
             ignored.append(ip)
 
     def is_ignored(p):
-        return any(component_prefix(i, p) for i in ignored)
+        # "IGNORE dir/" (trailing slash) is not honoured by the directory
+        # walk; files beneath keep their entries
+        return any(component_prefix(i, p) for i in ignored
+                   if not i.endswith('/'))
 
     # file entries
     file_entries = []       # (manifest index, entry dict)
@@ -141,7 +144,7 @@ def layout(draw, spec, sub_manifests=True, duplicates=True, ignores=True,
         if v[0] != 'f' or p in mpaths or p == 'Manifest':
             continue
         if is_ignored(p):
-            if draw(st.integers(0, 9)) != 0:
+            if not under_ignore or draw(st.integers(0, 9)) != 0:
                 continue
             tags.append('entry-under-ignore')
         if treegen.is_hidden(p):
